@@ -11,6 +11,7 @@
 //!        recording layer behind the filter; "probe"/"filter" wrap the filter so that `enabled` is consulted on
 //!        every hit and its verbatim answer is logged.
 //!  {"k":"pools"}                                        prints the macro callsite pools
+//!  {"k":"static_max"}                                   prints tracing's STATIC_MAX_LEVEL in this build (0..5)
 use std::collections::HashMap;
 use std::panic::{catch_unwind, AssertUnwindSafe};
 use std::sync::{mpsc, Arc, Mutex};
@@ -569,7 +570,7 @@ fn on_fresh_thread<F: FnOnce() -> J + Send>(f: F) -> J {
     })
 }
 
-fn main() {
+pub fn main() {
     std::panic::set_hook(Box::new(|_| {}));
     let workers = vec![Worker::new(), Worker::new()];
     let stdin = std::io::stdin();
@@ -595,6 +596,8 @@ fn main() {
                 "spans0": SPAN0_POOL.iter().map(|(i, t, l, n)| json!([i, t, l, n])).collect::<Vec<_>>(),
                 "events": EVENT_POOL.iter().map(|(i, t, l)| json!([i, t, l])).collect::<Vec<_>>(),
                 "eventsx": EVENTX_POOL.iter().map(|(i, t, l)| json!([i, t, l])).collect::<Vec<_>>()}),
+            // the compile-time level cap of this build of `tracing` (TRACE unless a max_level_* feature is on)
+            "static_max" => json!({"k": "static_max", "level": enc_f(&tracing::level_filters::STATIC_MAX_LEVEL)}),
             "pool" => {
                 pool.metas = c["metas"]
                     .as_array()
